@@ -17,6 +17,9 @@
 #include "stubs/C06_io.h"
 #include "x_image_types.h"
 
+#ifndef C06_DIM
+#define C06_DIM 8
+#endif
 #ifndef C06_DEPTH
 #define C06_DEPTH 32
 #endif
@@ -60,7 +63,8 @@ __CPROVER_requires(g_in == g_x * (bit_depth / 8) + C06_RGB_CHAN_BYTE(g_c))
 __CPROVER_ensures(verif_exc == 0 || verif_exc == EXC_io_error)
 /* success: all rows including padding consumed, 3 bytes per pixel delivered, no alpha */
 __CPROVER_ensures(verif_exc == 0 ==> (g_fpos == (size_t)h * C06_STRIDE(w, bit_depth / 8) && g_reads == (size_t)h))
-__CPROVER_ensures(verif_exc == 0 ==> (*has_alpha_out == 0 && __CPROVER_r_ok(*new_data_unique, (size_t)w * (size_t)h * 3)))
+__CPROVER_ensures(verif_exc == 0 ==> *has_alpha_out == 0)
+__CPROVER_ensures(verif_exc == 0 ==> __CPROVER_is_fresh(*new_data_unique, (size_t)w * (size_t)h * 3))
 /* success: every channel of every pixel is the byte the format defines */
 __CPROVER_ensures(verif_exc == 0 ==> ((const uint8_t*)*new_data_unique)[g_oidx] == g_bv);
 
@@ -86,7 +90,8 @@ __CPROVER_ensures(verif_exc == 0 || verif_exc == EXC_io_error || verif_exc == EX
 /* masks that are not whole bytes are rejected, byte masks in any arrangement are accepted */
 __CPROVER_ensures((verif_exc == EXC_runtime_error) == !C06_MASKS_OK)
 __CPROVER_ensures(verif_exc == 0 ==> (g_fpos == (size_t)h * (size_t)w * 4 && g_reads == (size_t)h))
-__CPROVER_ensures(verif_exc == 0 ==> (*has_alpha_out == 1 && __CPROVER_r_ok(*new_data_unique, (size_t)w * (size_t)h * 4)))
+__CPROVER_ensures(verif_exc == 0 ==> *has_alpha_out == 1)
+__CPROVER_ensures(verif_exc == 0 ==> __CPROVER_is_fresh(*new_data_unique, (size_t)w * (size_t)h * 4))
 __CPROVER_ensures(verif_exc == 0 ==> ((const uint8_t*)*new_data_unique)[g_oidx] == g_bv);
 
 /* ------------------------------------------------------------------------------------------------------------------
@@ -146,6 +151,7 @@ __CPROVER_ensures((verif_exc == 0 && C06_SAVE_POS_MATCH(C06_ALPHA, self->width))
  * loader, header part: statements from `WindowsBitmapHeader header = {};` up to the allocation of the pixel buffer.
  * ------------------------------------------------------------------------------------------------------------------ */
 #ifdef C06_HEADER
+#include "x_bmp_types.h"
 uint32_t g_hsize;    /* biSize as delivered by the file (ghost copy taken right after it was read) */
 void Image_load_bmp_header(FILE* f, const char* sig, WindowsBitmapHeader* out_header, int32_t* out_w, int32_t* out_h, bool* out_rev)
 __CPROVER_requires(__CPROVER_is_fresh(sig, 2))
